@@ -47,6 +47,10 @@ class _SktimeForecaster(BaseForecaster):
         X : pd.DataFrame, optional (default=None)
             Exogenous time series
         """
+        # fitting starts from the configured state, not from a previous fit
+        self._is_fitted = False
+        self._fh = None
+
         # set initial training data
         self._y, self._X = check_y_X(
             y, X, allow_empty=False, enforce_index_type=enforce_index_type
